@@ -55,12 +55,25 @@ static int LH(int tier) { return tier ? 4 : 3; }
 #define NRUN (2 * 3 * 2)  /* runs: C^k A^k or A^k C^k (k = 2..4) against X^k (protein; nucleotides: A^k C^k against N^k), either as a or as b */
 static uint64_t secH(int tier) { return (sq(kx_count_strings(3, 1, LH(tier))) + NRUN) * 3 * (NPC + NDC); }
 
+/* I: indel family.  kind 0: an insertion of 8/16/24/40 residues that ends 1/2/3/5 residues before the right end or starts that far
+   after the left end of a or of b (a gap of a quarter of the sequence and more next to a terminal); kind 1: two single-residue
+   insertions 2..6 residues apart (a gap that could be split or merged); kind 2: an insertion of 150 in sequences of about 420
+   (spans the middle rows of two successive divide steps); kind 3: the same strings over {Z,B,L} as section H has over {C,A,X}.
+   Configurations: the lists of the kind plus three with gpe far above tgpe. */
+static const struct cfg XCFG[3] = {{KALIGN_TYPE_DNA, 2, 40, 1}, {KALIGN_TYPE_DNA, 1, 200, 0}, {KALIGN_TYPE_PROTEIN, 2, 40, 1}};
+#define NICFG (NDC + NPC + 3)
+#define NI0 (4 * 4 * 2 * 2)
+#define NI1 (5 * 2)
+#define NI2 4
+#define NI3 (39 * 39)
+static uint64_t secI(int tier) { (void)tier; return (uint64_t)(NI0 + NI1 + NI2 + NI3) * 3 * NICFG; }
+
 uint64_t vh_total(int tier)
 {
 #if C07_THREADS > 1
         return secE(tier);
 #else
-        return secA(tier) + secB(tier) + secC(tier) + secD(tier) + secE(tier) + secG(tier) + secH(tier);
+        return secA(tier) + secB(tier) + secC(tier) + secD(tier) + secE(tier) + secG(tier) + secH(tier) + secI(tier);
 #endif
 }
 
@@ -76,6 +89,103 @@ static void decode(uint64_t id, int tier, struct pcase* p)
 #if C07_THREADS > 1
         id += secA(tier) + secB(tier) + secC(tier) + secD(tier);
 #endif
+        if(id >= secA(tier) + secB(tier) + secC(tier) + secD(tier) + secE(tier) + secG(tier) + secH(tier)){
+                uint64_t x = id - (secA(tier) + secB(tier) + secC(tier) + secD(tier) + secE(tier) + secG(tier) + secH(tier));
+                int ci = (int)(x % NICFG), fl, k, i, o = 0;
+                static char A[700], B[700], ins[200];
+                const char* f1;
+                const char* f2;
+                const char* alpha;
+                uint64_t st;
+                x /= NICFG;
+                fl = (int)(x % 3);
+                k = (int)(x / 3);
+                if(ci < NPC){
+                        p->protein = 1;
+                        p->c = PCFG[ci];
+                }else if(ci < NPC + NDC){
+                        p->protein = 0;
+                        p->c = DCFG[ci - NPC];
+                }else{
+                        p->c = XCFG[ci - NPC - NDC];
+                        p->protein = (ci - NPC - NDC) == 2;
+                }
+                f1 = p->protein ? PFLANK[fl][0] : FLANK[fl][0];
+                f2 = p->protein ? PFLANK[fl][1] : FLANK[fl][1];
+                alpha = p->protein ? "FIMRCHNY" : "ACGT";
+                st = 0x1DE1 + (uint64_t)k * 7 + (uint64_t)fl;
+                p->sec = 7;
+                if(k < NI0){
+                        static const int IL[4] = {8, 16, 24, 40}, IT[4] = {1, 2, 3, 5};
+                        int L = IL[k % 4], t = IT[(k / 4) % 4], left = (k / 16) % 2, inb = k / 32;
+                        char core[64];
+                        int cl;
+                        snprintf(core, sizeof core, "%s%s%s", f1, f2, f1);      /* 30 residues */
+                        cl = (int)strlen(core);
+                        sh_random_seq(&st, alpha, L, ins);
+                        /* the insertion sits t residues inside the left or the right end of the longer sequence */
+                        for(i = 0; i < cl; i++){
+                                if((left && i == t) || (!left && i == cl - t)){
+                                        memcpy(A + o, ins, (size_t)L);
+                                        o += L;
+                                }
+                                A[o++] = core[i];
+                        }
+                        A[o] = 0;
+                        strcpy(B, core);
+                        p->a = strdup(inb ? B : A);
+                        p->b = strdup(inb ? A : B);
+                        return;
+                }
+                k -= NI0;
+                if(k < NI1){
+                        int ml = 2 + k % 5, inb = k / 5;
+                        /* F1 x M y F2 against F1 M F2: x, y do not occur next to them; M = the first ml residues of F2 reversed */
+                        o = (int)snprintf(A, sizeof A, "%s%c", f1, p->protein ? 'Y' : 'T');
+                        for(i = 0; i < ml; i++){
+                                A[o++] = f2[ml - 1 - i];
+                        }
+                        A[o++] = p->protein ? 'G' : 'A';
+                        snprintf(A + o, sizeof A - (size_t)o, "%s", f2);
+                        o = (int)snprintf(B, sizeof B, "%s", f1);
+                        for(i = 0; i < ml; i++){
+                                B[o++] = f2[ml - 1 - i];
+                        }
+                        snprintf(B + o, sizeof B - (size_t)o, "%s", f2);
+                        p->a = strdup(inb ? B : A);
+                        p->b = strdup(inb ? A : B);
+                        return;
+                }
+                k -= NI1;
+                if(k < NI2){
+                        /* a = P(100) INS(150) Q(170); b = P Q TAIL(160)  (k & 1: roles exchanged; k & 2: INS of 90) */
+                        static char P[128], Q[200], T[200];
+                        int il = (k & 2) ? 90 : 150;
+                        sh_random_seq(&st, p->protein ? "LKWAVDEGST" : "ACGT", 100, P);
+                        sh_random_seq(&st, p->protein ? "LKWAVDEGST" : "ACGT", 170, Q);
+                        sh_random_seq(&st, alpha, il, ins);
+                        sh_random_seq(&st, alpha, 160, T);
+                        snprintf(A, sizeof A, "%s%s%s", P, ins, Q);
+                        snprintf(B, sizeof B, "%s%s%s", P, Q, T);
+                        p->a = strdup((k & 1) ? B : A);
+                        p->b = strdup((k & 1) ? A : B);
+                        p->sec = 4;     /* judged like the long family (fewer group shapes, longer limit) */
+                        return;
+                }
+                k -= NI2;
+                {
+                        uint64_t S = 39;
+                        char m1[8], m2[8];
+                        const char* zalpha = p->protein ? "ZBL" : "ACG";
+                        kx_nth_string((uint64_t)k % S, zalpha, 1, 3, m1);
+                        kx_nth_string((uint64_t)k / S, zalpha, 1, 3, m2);
+                        snprintf(A, sizeof A, "%s%s%s", f1, m1, f2);
+                        snprintf(B, sizeof B, "%s%s%s", f1, m2, f2);
+                        p->a = strdup(A);
+                        p->b = strdup(B);
+                        return;
+                }
+        }
         if(id >= secA(tier) + secB(tier) + secC(tier) + secD(tier) + secE(tier) + secG(tier)){
                 uint64_t x = id - (secA(tier) + secB(tier) + secC(tier) + secD(tier) + secE(tier) + secG(tier));
                 uint64_t S = kx_count_strings(3, 1, LH(tier));
